@@ -4,7 +4,7 @@ from harness import kprops, kgen, kscript
 from vlib.util import VERIF, REPO
 ASSUMPTIONS = ['"observable trace" = what process bodies and probe callbacks see (env.now, values, exceptions, order)',
                'hash-seed independence is sampled (fresh interpreters with several PYTHONHASHSEED values), not a theorem',
-               'a failed until-event makes run() raise from inside the callback loop; the statement does not cover that case and the model follows the code']
+               'run(until=event) for an event that fails re-raises its exception after all of its waiters have run (repaired in /repo)']
 SPEC = [(3, 'plan:time'), (3, 'plan:outcome'), (2, 'plan:cond'), (2, 'plan:intr'), (2, 'plan:res'), (2, 'plan:store')]
 
 CHILD = r'''
